@@ -20,6 +20,7 @@ partial def dispatch (j : Json) : R Json := do
   | "generated" => handleGenerated j
   | "parse" => handleParse j
   | "cli" => handleCli j
+  | "server_cli" => handleServerCli j
   | "tower" => handleTower j
   | "page" => handlePage j
   | "cs" => handleCs j
